@@ -1,5 +1,5 @@
 import CollectionsC.Properties.C01Sized
-import CollectionsC.Proofs.ArraySized8
+import CollectionsC.Proofs.ArraySized9
 /-! # C16 (sized array part) — rejected operations are inert, for every argument value
 
 Statements only.  Indices range over all of `Nat`, hence over every `size_t` value (`size`,
@@ -26,11 +26,11 @@ theorem refusal_is_inert (a : ArraySized) (op : Spec.SSeq.Op Elem) (m : Mem) (h 
   rcases hst with hst | hst <;> rw [hst] <;> simp
 
 /-- rejected iterator calls leave array and cursor unchanged: `iter_remove` (nothing yielded yet, or
-the element already removed), `iter_replace` (nothing yielded yet) -/
-theorem iter_error_is_inert (it : Iter) (a : ArraySized) (c : Spec.SSeq.Cursor Elem) (m : Mem) (h : a.Inv)
-    (hrel : IterRel it a c) (hst : (a.iterRemove it m).1 ≠ .ok) :
-    (a.iterRemove it m).2.2.2.1 = a ∧ (a.iterRemove it m).2.2.1 = it :=
-  (iterRemove_refines it a c m h hrel).2.2.2.2.2.2.2 hst
+the element already removed), `iter_replace` (nothing yielded yet) — unconditionally: the guards are
+index comparisons, so this holds for a stale cursor (array shortened through the API) as well -/
+theorem iter_error_is_inert (it : Iter) (a : ArraySized) (m : Mem) (hst : (a.iterRemove it m).1 ≠ .ok) :
+    (a.iterRemove it m).2.2.2.1 = a ∧ (a.iterRemove it m).2.2.1 = it ∧ (a.iterRemove it m).2.2.2.2 = m :=
+  ⟨(iterRemove_inert it a m hst).2.1, (iterRemove_inert it a m hst).1, (iterRemove_inert it a m hst).2.2⟩
 
 theorem iter_replace_error_is_inert (it : Iter) (a : ArraySized) (e : Buf Nat) (m : Mem)
     (hst : (a.iterReplace it e m).1 ≠ .ok) : a.iterReplace it e m = (.errOutOfRange, none, a, m) :=
